@@ -48,7 +48,9 @@ const (
 //
 //	Lead  blanks (space, tab)
 //	Mark  "" (an ordinary comment) or TODO / FIXME in some letter case
-//	Sep   "" | ":" | "(name)" | "(name):"   directly after the mark
+//	Sep   "" | ":" | "(name)" | "(name):"   directly after the mark; the name may be padded with
+//	      spaces inside the parentheses ("( bob )") and the colon may stand off by blanks
+//	      ("TODO :", "TODO(bob) :")
 //	Gap   blanks
 //	Body  the remaining text (the message when Mark != "")
 type Seg struct {
@@ -133,7 +135,7 @@ var (
 	reChrInner  = regexp.MustCompile(`^([^'\\\r\n]|\\[btnfr"'\\]|\\[0-3]?[0-7]?[0-7]|\\u+[0-9a-fA-F]{4})$`)
 	reWs        = regexp.MustCompile(`^[ \t\r\n]*$`)
 	reBlanks    = regexp.MustCompile(`^[ \t]*$`)
-	reSep       = regexp.MustCompile(`^(|:|\([A-Za-z0-9_.+\-@]([A-Za-z0-9_ .+\-@]*[A-Za-z0-9_.+\-@])?\):?)$`)
+	reSep       = regexp.MustCompile(`^(|[ \t]*:|\( *[A-Za-z0-9_.+\-@]([A-Za-z0-9_ .+\-@]*[A-Za-z0-9_.+\-@])? *\)([ \t]*:)?)$`)
 	reOpenText  = regexp.MustCompile(`^[A-Za-z0-9 :().\n]*$`)
 	rePathPart  = regexp.MustCompile(`^\.?[A-Za-z0-9_-]+(\.[A-Za-z0-9_]+)*$`)
 	reFileName  = regexp.MustCompile(`^[A-Za-z0-9_-]+(\.[A-Za-z0-9_~+]+)+$`)
@@ -350,9 +352,27 @@ type Entry struct {
 	Assignee string
 	Message  string // normalised
 	Block    bool   // expectation stems from a block comment
+	// Padded (expectations only): the name stands between the parentheses with blanks next to a
+	// parenthesis ("( bob )"). Assignee is the name without them; whether the report keeps those
+	// outer blanks is left open by the statement, so they are not compared.
+	Padded bool
+}
+
+// sepName: the text between the parentheses of a separator that has them.
+func sepName(sep string) string { return sep[1:strings.LastIndex(sep, ")")] }
+
+// sameAssignee: exact, except for the outer blanks of a padded name.
+func sameAssignee(w, got Entry) bool {
+	if w.Assignee == got.Assignee {
+		return true
+	}
+	return w.Padded && w.Assignee == strings.Trim(got.Assignee, " ")
 }
 
 func (e Entry) String() string {
+	if e.Padded {
+		return fmt.Sprintf("{file %s line %d assignee %q (outer blanks free) message %q}", e.File, e.Line, e.Assignee, e.Message)
+	}
 	return fmt.Sprintf("{file %s line %d assignee %q message %q}", e.File, e.Line, e.Assignee, e.Message)
 }
 
@@ -390,8 +410,9 @@ func expected(c Case) ([]Entry, map[string]int) {
 			if s.isComment() && s.Mark != "" {
 				e := Entry{File: f.Path, Line: line, Message: normMessage(s.Body, s.K == kBlock), Block: s.K == kBlock}
 				if strings.HasPrefix(s.Sep, "(") {
-					e.Assignee = strings.TrimSuffix(s.Sep, ":")
-					e.Assignee = e.Assignee[1 : len(e.Assignee)-1]
+					name := sepName(s.Sep)
+					e.Assignee = strings.Trim(name, " ")
+					e.Padded = e.Assignee != name
 				}
 				out = append(out, e)
 			}
@@ -450,7 +471,7 @@ func compare(c Case, got []Entry) string {
 				continue
 			}
 			for i, w := range want {
-				if used[i] || w.File != e.File || w.Line != e.Line || w.Assignee != e.Assignee {
+				if used[i] || w.File != e.File || w.Line != e.Line || !sameAssignee(w, e) {
 					continue
 				}
 				if (pass == 0 && w.Message == e.Message) || (pass == 1 && w.Block && w.Message == normMessage(e.Message, true)) {
@@ -845,6 +866,17 @@ func classify(c Case) pbt.Verdict {
 					add(true, "todo_in_"+s.K+"_comment")
 					add(strings.HasPrefix(s.Sep, "("), "with_assignee")
 					add(strings.HasSuffix(s.Sep, ":"), "with_colon")
+					if strings.HasPrefix(s.Sep, "(") {
+						name := sepName(s.Sep)
+						add(!inList(names, strings.Trim(name, " ")), "assignee_built_from_the_alphabet")
+						add(strings.HasPrefix(name, " "), "assignee_padded_left")
+						add(strings.HasSuffix(name, " "), "assignee_padded_right")
+						add(strings.HasPrefix(name, " ") && strings.HasSuffix(name, " "), "assignee_padded_on_both_sides")
+						add(name != strings.Trim(name, " ") && s.Gap == "" && s.Body != "", "padded_assignee_directly_followed_by_text")
+						add(strings.HasSuffix(s.Sep, ":") && !strings.HasSuffix(s.Sep, "):"), "blanks_between_assignee_and_colon")
+					} else {
+						add(len(s.Sep) > 1, "blanks_between_mark_and_colon")
+					}
 					add(s.Sep == "" && s.Gap == "" && s.Body == "", "marker_only")
 					add(s.Lead == "", "no_blank_after_comment_marker")
 					add(s.Mark != asciiUpper(s.Mark), "mark_not_upper_case")
@@ -965,6 +997,9 @@ var (
 	separators = []string{";", "(", ")", "{", "}", "[", "]", ",", "."}
 	wsList     = []string{" ", "\n", "", "\t", "  ", "\n\n", " \n", "\n    ", "\r\n", "\n\t", "\n\n\n\n\n\n\n\n\n\n\n"}
 	leads      = []string{" ", "", "\t", "  ", " \t "}
+	nameChars  = []string{"a", "Z", "7", "_", ".", "+", "-", "@"}
+	pads       = []string{" ", "  ", "   "}                       // blanks of the assignee alphabet (space only)
+	colonGaps  = []string{"", "", "", "", " ", "\t", "  ", " \t"} // between the mark or '(name)' and the colon
 	marks      = []string{"TODO", "FIXME", "todo", "fixme", "Todo", "FixMe", "tOdO", "ToDo", "FIXme", "toDO"}
 	names      = []string{"bob", "a", "phodal", "j.doe", "a b", "x@y.z", "me+you", "A_1", "k-9", "a  b", "Bob", "B", "9lives", "QA", "very.long_name-with+all@kinds.of.chars", "_", "007", "a.b.c"}
 	strPieces  = []string{"a", " ", "//", "/*", "*/", "#", "TODO", "TODO: x", "FIXME(bob): y", "// TODO: z", "/* todo */", "# fixme", `\n`, `\"`, `\\`, `\'`, `\u0041`, `\0`, `\177`, "'", "é", "x=1;", "%s"}
@@ -982,7 +1017,7 @@ var (
 	// commonly skip (vendor, node_modules, build, target, testdata), deep nesting, and directories
 	// whose name ends in a selected extension (highlight.js, pkg.java, x.py, app.go) are directories
 	// like any other: the files in them are scanned, the directories themselves are not files.
-	dirList = []string{"", "", "pkg", "pkg/inner", "src", "java", ".hidden", "vendor/lib", "node_modules/highlight.js", "build", "target/classes", "testdata", "test-data", "a/b/c/d", "pkg.java", "x.py", "app.go/cmd", "v1.2"}
+	dirList   = []string{"", "", "pkg", "pkg/inner", "src", "java", ".hidden", "vendor/lib", "node_modules/highlight.js", "build", "target/classes", "testdata", "test-data", "a/b/c/d", "pkg.java", "x.py", "app.go/cmd", "v1.2"}
 	tplPieces = []string{"a", " ", "//", "/*", "*/", "#", "TODO", "TODO: x", "// FIXME(bob): y", "\n", "\n# todo: z\n", "/* todo */", "'", "\"", "${x}", "é", "\n// TODO: in a raw string"}
 )
 
@@ -1027,6 +1062,33 @@ func genText(ch chooser, kind string, maxPieces int, star bool) string {
 	return s
 }
 
+// genName: a name from the list, now and then padded with spaces inside the parentheses on the
+// left, on the right or on both sides (0 = the bare name).
+func genName(ch chooser) string {
+	name := pick(ch, names)
+	if ch.n(5) == 5 { // built from 1-5 characters of the assignee alphabet, no outer blank
+		var sb strings.Builder
+		sb.WriteString(pick(ch, nameChars))
+		for i, m := 0, ch.n(4); i < m; i++ {
+			if i == m-1 {
+				sb.WriteString(pick(ch, nameChars))
+			} else {
+				sb.WriteString(pick(ch, append([]string{" "}, nameChars...)))
+			}
+		}
+		name = sb.String()
+	}
+	switch ch.n(7) {
+	case 4:
+		name = pick(ch, pads) + name
+	case 5:
+		name = name + pick(ch, pads)
+	case 6, 7:
+		name = pick(ch, pads) + name + pick(ch, pads)
+	}
+	return name
+}
+
 func genComment(ch chooser, kind string) Seg {
 	s := Seg{K: kind}
 	s.Lead = pick(ch, leads)
@@ -1041,11 +1103,11 @@ func genComment(ch chooser, kind string) Seg {
 		case 1:
 			s.Sep = ""
 		case 2:
-			s.Sep = "(" + pick(ch, names) + ")"
+			s.Sep = "(" + genName(ch) + ")"
 		case 3:
-			s.Sep = "(" + pick(ch, names) + "):"
+			s.Sep = "(" + genName(ch) + ")" + pick(ch, colonGaps) + ":"
 		default:
-			s.Sep = ":"
+			s.Sep = pick(ch, colonGaps) + ":"
 		}
 		s.Gap = pick(ch, leads)
 		s.Body = genText(ch, kind, 5, star)
@@ -1280,6 +1342,15 @@ func genCase(ch chooser, maxFiles, maxSegs int) Case {
 	return c
 }
 
+func inList(list []string, s string) bool {
+	for _, x := range list {
+		if x == s {
+			return true
+		}
+	}
+	return false
+}
+
 func dedup(in []string) []string {
 	seen := map[string]bool{}
 	var out []string
@@ -1331,9 +1402,10 @@ func genDefaults(t *rapid.T) Case {
 
 func init() {
 	pbt.SetProperty("C17")
-	pbt.Describe("rapid-generated directories of 1-3 (now and then up to 5) files in the directory itself or in sub-directories (plain, hidden, vendor / node_modules / build / target / testdata, four levels deep, and directories whose own name ends in a selected extension: node_modules/highlight.js, pkg.java, x.py, app.go); a file is 0-12 (thorough 0-18) segments: code tokens (identifiers incl. TODO/FIXME, numbers, operators incl. / and *, separators), Java-style string literals, one-character char literals and back-tick template / raw string literals (possibly multi-line) containing //, /*, */, #, TODO, escapes, line / block / hash comments, white space (incl. CRLF and runs of line breaks, so that comments start on lines >= 10), optionally an unterminated block comment as last segment. Comment text = blanks + [TODO|FIXME in 10 letter cases] + ['' | ':' | '(name)' | '(name):' | a punctuation character -.!,;?/=> directly after the mark] + blanks + text built from hostile pieces (comment markers, quotes, parentheses, colons, non-ASCII, words that mention TODO/FIXME, in block comments line breaks with and without ' * ' decoration); names from the tool's assignee alphabet incl. upper case, leading digit or underscore, long; also empty, one-character and blanks-only comments. File extensions from the selected list, from the CLI's default list, and near misses (.javax, .java.txt, .java~, .kts, .gradle.kts, .cc, .hh ...); filters from the default list plus .c .rb .txt .h .f90 .c++ .m4 .s. Sequences: the same scan twice; a second scan of the same directory with other filters (same process / same working directory) and then the first again; a scan of one selected file by its own path. Entry points: todo.TodoApp.AnalysisPath (absolute path, with and without trailing slash) and `coca todo` with -p src | absolute | ./src | src/ | . | no -p (working directory = the directory), -p/-e or --path/--ext=, and without -e (documented default list; sub-check cli_default puts a reportable comment into one file per default extension). Expected entries (file, start line, assignee, message) are computed from the segments; for the CLI the table on stdout must have one row per entry of simple-todos.json with the same line numbers and 'Todos Count' must be their number. Non-trivial = a file with a selected extension holds at least one reportable comment and at least one decoy (literal containing a comment marker or TODO/FIXME, or comment mentioning TODO/FIXME later); distinct = hash of the sorted (selected?, extension, text) of the files.",
+	pbt.Describe("rapid-generated directories of 1-3 (now and then up to 5) files in the directory itself or in sub-directories (plain, hidden, vendor / node_modules / build / target / testdata, four levels deep, and directories whose own name ends in a selected extension: node_modules/highlight.js, pkg.java, x.py, app.go); a file is 0-12 (thorough 0-18) segments: code tokens (identifiers incl. TODO/FIXME, numbers, operators incl. / and *, separators), Java-style string literals, one-character char literals and back-tick template / raw string literals (possibly multi-line) containing //, /*, */, #, TODO, escapes, line / block / hash comments, white space (incl. CRLF and runs of line breaks, so that comments start on lines >= 10), optionally an unterminated block comment as last segment. Comment text = blanks + [TODO|FIXME in 10 letter cases] + ['' | ':' | '(name)' | '(name):' | a punctuation character -.!,;?/=> directly after the mark; the name may be padded with 1-3 spaces inside the parentheses on the left, on the right or on both sides ('( bob )'), and the colon may stand off from the mark or from '(name)' by blanks ('TODO :', 'TODO(bob) \t:')] + blanks + text built from hostile pieces (comment markers, quotes, parentheses, colons, non-ASCII, words that mention TODO/FIXME, in block comments line breaks with and without ' * ' decoration); names from the tool's assignee alphabet incl. upper case, leading digit or underscore, long, and names of 1-5 characters built from that alphabet (letters, digit, _ . + - @, inner spaces); also empty, one-character and blanks-only comments. File extensions from the selected list, from the CLI's default list, and near misses (.javax, .java.txt, .java~, .kts, .gradle.kts, .cc, .hh ...); filters from the default list plus .c .rb .txt .h .f90 .c++ .m4 .s. Sequences: the same scan twice; a second scan of the same directory with other filters (same process / same working directory) and then the first again; a scan of one selected file by its own path. Entry points: todo.TodoApp.AnalysisPath (absolute path, with and without trailing slash) and `coca todo` with -p src | absolute | ./src | src/ | . | no -p (working directory = the directory), -p/-e or --path/--ext=, and without -e (documented default list; sub-check cli_default puts a reportable comment into one file per default extension). Expected entries (file, start line, assignee, message) are computed from the segments; for the CLI the table on stdout must have one row per entry of simple-todos.json with the same line numbers and 'Todos Count' must be their number. Non-trivial = a file with a selected extension holds at least one reportable comment and at least one decoy (literal containing a comment marker or TODO/FIXME, or comment mentioning TODO/FIXME later); distinct = hash of the sorted (selected?, extension, text) of the files.",
 		"messages are compared after collapsing white space and trimming; in block comments an asterisk counts as white space on both sides (continuation-line decoration and terminator), in line and hash comments it is ordinary text",
-		"forms the statement leaves open are not generated: mark directly followed by a letter, digit or underscore (TODOS, TODO1), message starting with ':' or '(' , blank between mark and '(name)', names outside [A-Za-z0-9_ .+-@] or with outer blanks, /** doc comments and block comments whose text starts on a later line, Unicode white space or letters that upper-case to ASCII directly after the comment marker, form feed / U+2028 line ends, back-slashes inside template strings, Python single-quoted and triple-quoted strings, .gitignore files, paths containing testData, extensions that differ from a filter only in letter case, filters with more than one dot",
+		"forms the statement leaves open are not generated: mark directly followed by a letter, digit or underscore (TODOS, TODO1), message starting with ':' or '(' , blank between mark and '(name)', colon before '(name)', more than one colon, names outside [A-Za-z0-9_ .+-@], names that are blanks only, tabs inside the parentheses, /** doc comments and block comments whose text starts on a later line, Unicode white space or letters that upper-case to ASCII directly after the comment marker, form feed / U+2028 line ends, back-slashes inside template strings, Python single-quoted and triple-quoted strings, .gitignore files, paths containing testData, extensions that differ from a filter only in letter case, filters with more than one dot",
+		"a name padded with spaces inside the parentheses ('( bob )'): the expected assignee is the name; the statement does not say whether the report keeps the blanks next to the parentheses, so the reported assignee is compared after trimming them (for an unpadded name the comparison is exact); the message must be the remaining text either way",
 		"without -e the selected extensions are the default list documented by `coca todo --help` (.java,.py,.go,.ts,.js,.kt,.groovy,.gradle)",
 		"a file named by its own path is only scanned that way when its extension is selected (the walker applies no filter to a single file; the statement does not say)",
 		"entries on or after the line of an unterminated block comment at the end of a file are not judged (only crash-freedom)",
